@@ -27,6 +27,7 @@ type c19Params struct {
 	Auth    bool            `json:"auth"`
 	Resumed bool            `json:"resumed"`
 	Plan    []simnet.DFault `json:"plan"`
+	Lat0    bool            `json:"lat0,omitempty"` // zero network latency: both ends' timers expire at the same instant, the seed picks the order
 	K       int             `json:"k"` // number of faults to draw when Plan is nil
 }
 
@@ -96,6 +97,15 @@ func c19List(tier string) []c19Params {
 				for _, s := range slots {
 					for _, k := range c19Kinds {
 						out = append(out, c19Params{Suite: m.suite, Auth: m.auth, Resumed: resumed, Plan: []simnet.DFault{c19Fault(s.dir, s.name, k)}})
+					}
+				}
+				for _, s := range slots {
+					// the same flight lost twice (first transmission and first retransmission), and single losses
+					// with zero latency (simultaneous timer expiry on both ends, order from the seed), twice
+					second := strings.Replace(s.name, "#1", "#2", 1)
+					out = append(out, c19Params{Suite: m.suite, Auth: m.auth, Resumed: resumed, Plan: []simnet.DFault{c19Fault(s.dir, s.name, simnet.FDrop), c19Fault(s.dir, second, simnet.FDrop)}})
+					for rep := 0; rep < 2; rep++ {
+						out = append(out, c19Params{Suite: m.suite, Auth: m.auth, Resumed: resumed, Lat0: true, Plan: []simnet.DFault{c19Fault(s.dir, s.name, simnet.FDrop)}})
 					}
 				}
 				for i := 0; i < len(slots); i++ {
@@ -249,6 +259,9 @@ func c19RunPlan(c *Case, src *vs.Src, p *c19Params, plan []simnet.DFault, r *Res
 		env := NewEnv(w)
 		env.DCaches["c"], env.DCaches["s"] = ccache, scache
 		pair := NewPair(DTLCP, env, cc, sc, fmt.Sprintf("c%d", conn), fmt.Sprintf("s%d", conn), "client:1", "server:443")
+		if p.Lat0 {
+			pair.Net.Latency = 0
+		}
 		if conn == conns-1 {
 			pair.Net.Namer = c19Datagram
 			pair.Net.SetPlan(plan)
